@@ -1,9 +1,16 @@
 #!/bin/bash
-# Build the Lean library (models, lemmas, property theorems) and the native model driver. Offline.
+# Build the Lean library (models, lemmas, property theorems), the native model driver, and the tie modules
+# (definitions translated from /repo's current source by tools/py2lean.py + their equality proofs). Offline.
 set -e
 DIR="$(cd "$(dirname "${BASH_SOURCE[0]}")" && pwd)"
 /venv/bin/python "$DIR/tools/gen_lean_roots.py"
+/venv/bin/python "$DIR/tools/py2lean.py" --repo "${TRACKLIB_REPO:-/repo}"
 cd "$DIR/lean"
 lake build
 test -x .lake/build/bin/tvdriver
+if ls TracklibVerif/Tie/*.lean >/dev/null 2>&1; then
+  for f in TracklibVerif/Tie/*.lean; do
+    lake build "TracklibVerif.Tie.$(basename "$f" .lean)"
+  done
+fi
 echo "setup ok"
